@@ -664,7 +664,7 @@ def own(g, rs, ctx):
         return
     # own_misc: transforms / tenalg / metrics with caller-owned lists
     from tensorly import tenalg, cp_tensor as cpm, metrics
-    which = gen.choice(rs, ["cp_flip_sign", "cp_permute_list", "khatri_rao_mask", "cp_normalize", "mttkrp", "kronecker", "multi_mode_dot", "corrindex", "congruence",
+    which = gen.choice(rs, ["cp_flip_sign", "cp_permute_list", "khatri_rao_mask", "khatri_rao_mask", "khatri_rao_mask", "cp_normalize", "mttkrp", "kronecker", "multi_mode_dot", "corrindex", "congruence",
                             "svd_compress", "cp_mode_dot_copy", "cp_mode_dot_copy", "prox", "process_reg", "validate_rank", "tensordot_lists", "tensordot_lists", "nnls_start", "nnls_start",
                             "rank_lists", "mode_lists"])
     _TL.last_entry = which
@@ -682,7 +682,24 @@ def own(g, rs, ctx):
         prev = tenalg.get_backend()
         tenalg.set_backend(be)
         try:
-            tenalg.khatri_rao(fs, weights=w if rs.rand() < 0.5 else None, mask=argkind(rs, (rs.uniform(size=shp) < 0.7).astype(float), ctx) if rs.rand() < 0.7 else None)
+            shape_k = gen.choice(rs, ["all", "all", "skip", "pair-skip", "single", "vector"])
+            ctx.count("own/khatri_rao_operands/" + shape_k)
+            mats, skip_ = fs, None
+            if shape_k == "skip":
+                skip_ = int(rs.randint(order))
+            elif shape_k == "pair-skip":        # two matrices, one skipped: a single one is left and no product is formed
+                mats, skip_ = fs[:2], int(rs.randint(2))
+            elif shape_k == "single":
+                mats = fs[:1]
+            elif shape_k == "vector":
+                import warnings as _w
+                mats = [argkind(rs, rs.standard_normal(shp[0]), ctx)]
+            rows = int(np.prod([np.shape(m_)[0] for i_, m_ in enumerate(mats) if i_ != skip_]))
+            msk = argkind(rs, (rs.uniform(size=rows) < 0.7).astype(float), ctx) if rs.rand() < 0.7 else None
+            import warnings as _w
+            with _w.catch_warnings():
+                _w.simplefilter("ignore")
+                tenalg.khatri_rao(mats, weights=(w if shape_k != "vector" else w[:1]) if rs.rand() < 0.5 else None, skip_matrix=skip_, mask=msk)
         finally:
             tenalg.set_backend(prev)
     elif which == "cp_normalize":
@@ -694,7 +711,8 @@ def own(g, rs, ctx):
     elif which == "multi_mode_dot":
         tenalg.multi_mode_dot(X, [f.T for f in fs], skip=1)
     elif which == "corrindex":
-        metrics.correlation_index(fs, [f * 2 for f in fs])
+        f2 = [argkind(rs, np.asarray(f) * 2 + 0.1 * rs.standard_normal(np.shape(f)), ctx) for f in fs]
+        metrics.correlation_index(fs, f2, method=gen.choice(rs, ["stacked", "max_score", "min_score", "avg_score"]))
     elif which == "congruence":
         metrics.congruence_coefficient(fs, [f[:, ::-1] for f in fs])
     elif which == "svd_compress":
